@@ -21,7 +21,7 @@ import random
 import common as C
 from common import f2b
 
-HEADER = "Require Import JF.Base.Store JF.Model.StateHandler JF.Model.StateHandlerCases."
+HEADER = "From Coq Require Import Uint63.\nRequire Import JF.Base.Store JF.Model.StateHandler JF.Model.StateHandlerCases."
 FIELDS = ("p", "v", "t")
 COQ_FIELD = {"p": "FPos", "v": "FVel", "t": "FTs"}
 
@@ -423,7 +423,8 @@ def oracle(seq, out):
 # ----------------------------------------------------------------------------------------------------
 # Coq terms
 def cz(l):
-    return "[" + "; ".join(str(int(x)) for x in l) + "]%Z"
+    """list of 64-bit patterns; each as two 32-bit halves (primitive-integer literals parse fast)."""
+    return "[" + "; ".join("zb %d %d" % (int(x) >> 32, int(x) & 0xFFFFFFFF) for x in l) + "]"
 
 
 def coq_ident(k):
